@@ -1149,11 +1149,24 @@ class Process(StateMachine, persistence.Savable, metaclass=ProcessStateMachineMe
         msg = MessageBuilder.pause(msg_text)
         return self._do_pause(state_msg=msg)
 
-    def _do_pause(self, state_msg: Optional[MessageType], next_state: Optional[process_states.State] = None) -> bool:
+    def _do_pause(
+        self,
+        state_msg: Optional[MessageType],
+        next_state: Optional[process_states.State] = None,
+        action: Optional[futures.CancellableAction] = None,
+    ) -> bool:
         """Carry out the pause procedure, optionally transitioning to the next state first"""
         try:
             if next_state is not None:
                 self.transition_to(next_state)
+
+            if action is not None and action.cancelled():
+                # A hook or listener called during the transition withdrew this pause (play) or superseded it (kill)
+                return False
+
+            if self.paused:
+                # Already paused by a request made during the transition
+                return True
 
             if state_msg is None:
                 msg_text = ''
@@ -1163,7 +1176,8 @@ class Process(StateMachine, persistence.Savable, metaclass=ProcessStateMachineMe
             call_with_super_check(self.on_pausing, msg_text)
             call_with_super_check(self.on_paused, msg_text)
         finally:
-            self._pausing = None
+            if action is None or self._pausing is action:
+                self._pausing = None
 
         return True
 
@@ -1176,8 +1190,12 @@ class Process(StateMachine, persistence.Savable, metaclass=ProcessStateMachineMe
 
         """
         if isinstance(exception, process_states.PauseInterruption):
-            do_pause = functools.partial(self._do_pause, exception.msg)
-            return futures.CancellableAction(do_pause, cookie=exception)
+
+            def do_pause(next_state: Optional[process_states.State] = None) -> bool:
+                return self._do_pause(exception.msg, next_state, action)
+
+            action = futures.CancellableAction(do_pause, cookie=exception)
+            return action
 
         if isinstance(exception, process_states.KillInterruption):
 
